@@ -360,4 +360,657 @@ theorem C20_3d_dart_entities_of_face (hwf : WF 4 m) (hcl : ClosedFaces m)
 
 end ThreeD
 
+/-! ## cycles of β1: membership, symmetry, closure under β1 and β0 -/
+
+section Cycles
+variable {X : Type} {nb : Nat} {m : Map X}
+
+theorem reach_iterate (m : Map X) (x : Nat) : ∀ j, Reach (fun y => [m.β 1 y]) x ((m.β 1)^[j] x) := by
+  intro j
+  induction j with
+  | zero => exact .refl _
+  | succ j ih =>
+      rw [Function.iterate_succ_apply']
+      exact ih.tail (by simp)
+
+theorem mem_cycleB_iff (hwf : WF nb m) (h2 : 2 ≤ nb) (hcl : ClosedFaces m) {d : Nat}
+    (hd : InUse m d) (x : Nat) :
+    x ∈ cycleB m d ↔ x ≠ 0 ∧ Reach (fun y => [m.β 1 y]) d x := by
+  rw [← cycleB_eq hwf h2 hcl hd]
+  have h0 : ∀ y, y ∈ (fun x => [m.β 1 x]) 0 → y = 0 := by
+    intro y hy; simp only [List.mem_singleton] at hy; rw [hy]; exact hwf.null 1 (by omega)
+  have hr : ∀ a, a < m.n → ∀ y, y ∈ (fun x => [m.β 1 x]) a → y < m.n := by
+    intro a ha y hy; simp only [List.mem_singleton] at hy; rw [hy]; exact hwf.range 1 (by omega) a ha
+  exact (bfsPure_spec h0 hr hd.1 hd.2.1).2.2.2.1 x
+
+theorem mem_cycleB_iterate (hwf : WF nb m) (h2 : 2 ≤ nb) (hcl : ClosedFaces m) {d : Nat}
+    (hd : InUse m d) (j : Nat) : (m.β 1)^[j] d ∈ cycleB m d := by
+  rw [mem_cycleB_iff hwf h2 hcl hd]
+  refine ⟨?_, reach_iterate m d j⟩
+  induction j with
+  | zero => exact hd.1
+  | succ j ih =>
+      rw [Function.iterate_succ_apply']
+      have := reach1_inUse hwf h2 hd (reach_iterate m d j) ih
+      exact hcl _ this.2.1 this.1 this.2.2
+
+theorem self_mem_cycleB (hwf : WF nb m) (h2 : 2 ≤ nb) (hcl : ClosedFaces m) {d : Nat}
+    (hd : InUse m d) : d ∈ cycleB m d := mem_cycleB_iterate hwf h2 hcl hd 0
+
+/-- a dart of the cycle of `d` has `d` on its own cycle -/
+theorem reach_back (hwf : WF nb m) (h2 : 2 ≤ nb) (hcl : ClosedFaces m) {d x : Nat}
+    (hd : InUse m d) (hx : x ∈ cycleB m d) : Reach (fun y => [m.β 1 y]) x d := by
+  obtain ⟨hpos, hcyc, _, _⟩ := periodB_spec hwf h2 hcl hd
+  unfold cycleB at hx
+  rw [List.mem_iterate] at hx
+  obtain ⟨j, hj, rfl⟩ := hx
+  have : (m.β 1)^[periodB m d - j] ((m.β 1)^[j] d) = d := by
+    rw [← Function.iterate_add_apply, show periodB m d - j + j = periodB m d by omega, hcyc]
+  have r := reach_iterate m ((m.β 1)^[j] d) (periodB m d - j)
+  rw [this] at r
+  exact r
+
+/-- the cycles of two darts of the same cycle have the same darts -/
+theorem cycleB_congr (hwf : WF nb m) (h2 : 2 ≤ nb) (hcl : ClosedFaces m) {d x : Nat}
+    (hd : InUse m d) (hx : x ∈ cycleB m d) (y : Nat) : y ∈ cycleB m x ↔ y ∈ cycleB m d := by
+  have hxu := (periodB_spec hwf h2 hcl hd).2.2.2 x hx
+  rw [mem_cycleB_iff hwf h2 hcl hxu, mem_cycleB_iff hwf h2 hcl hd]
+  have h1 := ((mem_cycleB_iff hwf h2 hcl hd x).1 hx).2
+  have h3 := reach_back hwf h2 hcl hd hx
+  exact ⟨fun ⟨a, b⟩ => ⟨a, h1.trans b⟩, fun ⟨a, b⟩ => ⟨a, h3.trans b⟩⟩
+
+/-- the cycle is closed under `β1` and under `β0` -/
+theorem cycleB_closed (hwf : WF nb m) (h2 : 2 ≤ nb) (hcl : ClosedFaces m) {d x : Nat}
+    (hd : InUse m d) (hx : x ∈ cycleB m d) :
+    m.β 1 x ∈ cycleB m d ∧ m.β 0 x ∈ cycleB m d ∧ m.β 0 x ≠ 0 := by
+  obtain ⟨hpos, hcyc, _, hin⟩ := periodB_spec hwf h2 hcl hd
+  have hxu := hin x hx
+  have h1 : m.β 1 x ∈ cycleB m d := by
+    rw [← cycleB_congr hwf h2 hcl hd hx]
+    exact mem_cycleB_iterate hwf h2 hcl hxu 1
+  -- `β0 x` is the last dart of the cycle of `x`
+  obtain ⟨hposx, hcycx, _, hinx⟩ := periodB_spec hwf h2 hcl hxu
+  have hlast := mem_cycleB_iterate hwf h2 hcl hxu (periodB m x - 1)
+  have hlu := hinx _ hlast
+  have e : m.β 1 ((m.β 1)^[periodB m x - 1] x) = x := by
+    rw [← Function.iterate_succ_apply' (m.β 1), show (periodB m x - 1).succ = periodB m x by omega, hcycx]
+  have e0 : m.β 0 x = (m.β 1)^[periodB m x - 1] x := by
+    have := hwf.inv01 _ hlu.2.1 (by rw [e]; exact hxu.1)
+    rw [e] at this; exact this
+  rw [e0]
+  exact ⟨h1, (cycleB_congr hwf h2 hcl hd hx _).1 hlast, hlu.1⟩
+
+/-- `β0^i` undoes `β1^i` on in-use darts of closed faces -/
+theorem b0_iter_b1_iter (hwf : WF nb m) (h2 : 2 ≤ nb) (hcl : ClosedFaces m) :
+    ∀ (i z : Nat), InUse m z → (m.β 0)^[i] ((m.β 1)^[i] z) = z := by
+  intro i
+  induction i with
+  | zero => intro z _; rfl
+  | succ i ih =>
+      intro z hz
+      have hw := (periodB_spec hwf h2 hcl hz).2.2.2 _ (mem_cycleB_iterate hwf h2 hcl hz i)
+      have hne := hcl _ hw.2.1 hw.1 hw.2.2
+      rw [Function.iterate_succ_apply, Function.iterate_succ_apply', hwf.inv01 _ hw.2.1 hne]
+      exact ih z hz
+
+/-- `β0^i f` is a dart of the cycle of `f` -/
+theorem b0_iter_mem (hwf : WF nb m) (h2 : 2 ≤ nb) (hcl : ClosedFaces m) {d : Nat} (hd : InUse m d) :
+    ∀ i, (m.β 0)^[i] d ∈ cycleB m d := by
+  intro i
+  induction i with
+  | zero => exact self_mem_cycleB hwf h2 hcl hd
+  | succ i ih =>
+      rw [Function.iterate_succ_apply']
+      exact (cycleB_closed hwf h2 hcl hd ih).2.1
+
+end Cycles
+
+/-! ## 3-D: the second side is the mirror image of the first -/
+
+/-- a face is 3-linked as a whole (what `three_link` / `three_unlink` produce and C02's walks keep) -/
+def Sided {X : Type} (m : Map X) : Prop :=
+  ∀ d, d < m.n → m.β 1 d ≠ 0 → (m.β 3 d = 0 ↔ m.β 3 (m.β 1 d) = 0)
+
+instance {X : Type} (m : Map X) : Decidable (Sided m) := by unfold Sided; exact inferInstance
+
+section Mirror3
+variable {m : Map Val} {sc : Scene}
+
+/-- all darts of a cycle are 3-linked, or none -/
+theorem sided_cycle (hwf : WF 4 m) (hcl : ClosedFaces m) (hs : Sided m) {f x : Nat} (hf : InUse m f)
+    (hx : x ∈ cycleB m f) : m.β 3 x = 0 ↔ m.β 3 f = 0 := by
+  unfold cycleB at hx
+  rw [List.mem_iterate] at hx
+  obtain ⟨j, hj, rfl⟩ := hx
+  clear hj
+  induction j with
+  | zero => rfl
+  | succ j ih =>
+      rw [Function.iterate_succ_apply']
+      have hu := (periodB_spec hwf (by omega) hcl hf).2.2.2 _ (mem_cycleB_iterate hwf (by omega) hcl hf j)
+      rw [← hs _ hu.2.1 (hcl _ hu.2.1 hu.1 hu.2.2)]
+      exact ih
+
+/-- one step of the mirror condition, read at `y = β1 d` -/
+theorem mirror_step (hwf : WF 4 m) (hcl : ClosedFaces m) (hM : Mirror m) (hs : Sided m) {y : Nat}
+    (hy : InUse m y) (h3 : m.β 3 y ≠ 0) : m.β 1 (m.β 3 y) = m.β 3 (m.β 0 y) := by
+  obtain ⟨hb0m, hb0⟩ := (cycleB_closed hwf (by omega) hcl hy (self_mem_cycleB hwf (by omega) hcl hy)).2
+  have hdu := (periodB_spec hwf (by omega) hcl hy).2.2.2 _ hb0m
+  have e1 : m.β 1 (m.β 0 y) = y := hwf.inv10 y hy.2.1 hb0
+  have h3d : m.β 3 (m.β 0 y) ≠ 0 := by
+    intro e
+    have := (hs _ hdu.2.1 (by rw [e1]; exact hy.1)).1 e
+    rw [e1] at this; exact h3 this
+  have := hM (m.β 0 y) hdu.2.1 (by rw [e1]; exact hy.1) h3d (by rw [e1]; exact h3)
+  rw [e1] at this
+  exact this
+
+/-- **C20 (3-D), the second side is the mirror of the first** (closed, mirrored, wholly 3-linked
+    faces): walking forward from `β3 f` is walking backward from `f` on the other side,
+    `β1^i (β3 f) = β3 (β0^i f)`; hence the darts of the second cycle are exactly the β3-images of the
+    darts of the first -/
+theorem C20_3d_second_side_is_mirror (hwf : WF 4 m) (hcl : ClosedFaces m) (hM : Mirror m)
+    (hs : Sided m) {f : Nat} (hf : InUse m f) (h3 : m.β 3 f ≠ 0) :
+    (∀ i, (m.β 1)^[i] (m.β 3 f) = m.β 3 ((m.β 0)^[i] f)) ∧
+    ∀ x, x ∈ cycleB m (m.β 3 f) ↔ ∃ y, y ∈ cycleB m f ∧ x = m.β 3 y := by
+  have hin := (periodB_spec hwf (by omega) hcl hf).2.2.2
+  have step : ∀ i, (m.β 1)^[i] (m.β 3 f) = m.β 3 ((m.β 0)^[i] f) := by
+    intro i
+    induction i with
+    | zero => rfl
+    | succ i ih =>
+        have hy := hin _ (b0_iter_mem hwf (by omega) hcl hf i)
+        have h3y : m.β 3 ((m.β 0)^[i] f) ≠ 0 := fun e =>
+          h3 ((sided_cycle hwf hcl hs hf (b0_iter_mem hwf (by omega) hcl hf i)).1 e)
+        rw [Function.iterate_succ_apply', ih, mirror_step hwf hcl hM hs hy h3y,
+          ← Function.iterate_succ_apply' (m.β 0)]
+  refine ⟨step, ?_⟩
+  have hu3 := inUse_image4 hwf hf (by omega : 3 < 4) h3
+  intro x
+  constructor
+  · intro hx
+    unfold cycleB at hx
+    rw [List.mem_iterate] at hx
+    obtain ⟨j, _, rfl⟩ := hx
+    exact ⟨_, b0_iter_mem hwf (by omega) hcl hf j, step j⟩
+  · rintro ⟨y, hy, rfl⟩
+    -- `y = β1^j f = β0^(k-j) f`
+    obtain ⟨hpos, hcyc, _, _⟩ := periodB_spec hwf (by omega) hcl hf
+    have hy' := hy
+    unfold cycleB at hy'
+    rw [List.mem_iterate] at hy'
+    obtain ⟨j, hj, rfl⟩ := hy'
+    have e : (m.β 0)^[periodB m f - j] f = (m.β 1)^[j] f := by
+      have h1 : (m.β 1)^[periodB m f - j] ((m.β 1)^[j] f) = f := by
+        rw [← Function.iterate_add_apply, show periodB m f - j + j = periodB m f by omega, hcyc]
+      have := b0_iter_b1_iter hwf (by omega) hcl (periodB m f - j) _ (hin _ hy)
+      rw [h1] at this
+      exact this
+    rw [← e, ← step]
+    exact mem_cycleB_iterate hwf (by omega) hcl hu3 _
+
+/-- **C20 (3-D), one entity per dart of the face** (closed, mirrored, wholly 3-linked faces): the
+    darts that get an entity tagged `f` are exactly the non-null darts reachable from `f` through
+    `β1`, `β0` and `β3` — the 3-D face orbit of `f` -/
+theorem C20_3d_face_darts_are_the_face_orbit (hwf : WF 4 m) (hcl : ClosedFaces m) (hM : Mirror m)
+    (hs : Sided m) {f : Nat} (hf : InUse m f) (x : Nat) :
+    x ∈ faceDarts m f ↔ x ≠ 0 ∧ Reach (fun y => [m.β 1 y, m.β 0 y, m.β 3 y]) f x := by
+  have hin := (periodB_spec hwf (by omega) hcl hf).2.2.2
+  have sub : ∀ a b, Reach (fun y => [m.β 1 y]) a b → Reach (fun y => [m.β 1 y, m.β 0 y, m.β 3 y]) a b :=
+    fun a b h => h.mono (fun x y hy => by simp only [List.mem_singleton] at hy; simp [hy])
+  unfold faceDarts
+  rw [List.mem_append]
+  constructor
+  · rintro (hx | hx)
+    · obtain ⟨h0, hr⟩ := (mem_cycleB_iff hwf (by omega) hcl hf x).1 hx
+      exact ⟨h0, sub _ _ hr⟩
+    · by_cases h3 : m.β 3 f = 0
+      · rw [if_pos h3] at hx; simp at hx
+      · rw [if_neg h3] at hx
+        obtain ⟨y, hy, rfl⟩ := ((C20_3d_second_side_is_mirror hwf hcl hM hs hf h3).2 x).1 hx
+        have hu3 := inUse_image4 hwf hf (by omega : 3 < 4) h3
+        refine ⟨((periodB_spec hwf (by omega) hcl hu3).2.2.2 _ hx).1, ?_⟩
+        exact (sub _ _ ((mem_cycleB_iff hwf (by omega) hcl hf y).1 hy).2).tail (by simp)
+  · rintro ⟨hx0, hr⟩
+    induction hr with
+    | refl => exact Or.inl (self_mem_cycleB hwf (by omega) hcl hf)
+    | tail hab hc ih =>
+        rename_i b c
+        have hb0 : b ≠ 0 := by
+          intro e
+          simp only [e, hwf.null 1 (by omega), hwf.null 0 (by omega), hwf.null 3 (by omega),
+            List.mem_cons, List.not_mem_nil, or_false, or_self] at hc
+          exact hx0 hc
+        simp only [List.mem_cons, List.not_mem_nil, or_false] at hc
+        rcases ih hb0 with hb | hb
+        · -- `b` on the first side
+          obtain ⟨c1, c2, _⟩ := cycleB_closed hwf (by omega) hcl hf hb
+          rcases hc with rfl | rfl | rfl
+          · exact Or.inl c1
+          · exact Or.inl c2
+          · have h3 : m.β 3 f ≠ 0 := fun e => hx0 ((sided_cycle hwf hcl hs hf hb).2 e)
+            rw [if_neg h3]
+            exact Or.inr (((C20_3d_second_side_is_mirror hwf hcl hM hs hf h3).2 _).2 ⟨b, hb, rfl⟩)
+        · -- `b` on the second side
+          by_cases h3 : m.β 3 f = 0
+          · rw [if_pos h3] at hb; simp at hb
+          · rw [if_neg h3] at hb ⊢
+            have hu3 := inUse_image4 hwf hf (by omega : 3 < 4) h3
+            obtain ⟨c1, c2, _⟩ := cycleB_closed hwf (by omega) hcl hu3 hb
+            rcases hc with rfl | rfl | rfl
+            · exact Or.inr c1
+            · exact Or.inr c2
+            · obtain ⟨y, hy, rfl⟩ := ((C20_3d_second_side_is_mirror hwf hcl hM hs hf h3).2 b).1 hb
+              have hyu := hin y hy
+              have h3y : m.β 3 y ≠ 0 := fun e => h3 ((sided_cycle hwf hcl hs hf hy).1 e)
+              rw [(hwf.invol 3 (by omega) (by omega) y hyu.2.1 h3y).1]
+              exact Or.inl hy
+
+/-- **C20 (3-D), no dart twice within a face**: if `β3 f` does not lie on the β1-cycle of `f`
+    (always the case for faces built by `three_link`, which refuses to pair two darts of one cycle),
+    the darts tagged `f` are pairwise distinct -/
+theorem C20_3d_face_darts_nodup (hwf : WF 4 m) (hcl : ClosedFaces m) {f : Nat} (hf : InUse m f)
+    (hns : m.β 3 f ∉ cycleB m f) : (faceDarts m f).Nodup := by
+  unfold faceDarts
+  by_cases h3 : m.β 3 f = 0
+  · rw [if_pos h3, List.append_nil]; exact (periodB_spec hwf (by omega) hcl hf).2.2.1
+  · rw [if_neg h3]
+    have hu3 := inUse_image4 hwf hf (by omega : 3 < 4) h3
+    rw [List.nodup_append]
+    refine ⟨(periodB_spec hwf (by omega) hcl hf).2.2.1, (periodB_spec hwf (by omega) hcl hu3).2.2.1, ?_⟩
+    intro a ha b hb hab
+    subst hab
+    -- `a` on both cycles: then `β3 f` is on the cycle of `f`
+    apply hns
+    rw [← cycleB_congr hwf (by omega) hcl hf ha]
+    have hau := (periodB_spec hwf (by omega) hcl hf).2.2.2 a ha
+    rw [mem_cycleB_iff hwf (by omega) hcl hau]
+    exact ⟨h3, reach_back hwf (by omega) hcl hu3 hb⟩
+
+/-- **C20 (3-D), a self-glued face is enumerated twice**: if `β3` pairs darts of ONE β1-cycle
+    (well-formed and mirrored, but refused by `three_link`), every dart of the face gets two dart
+    entities tagged `f` — the code walks the same cycle from `f` and from `β3 f` -/
+theorem C20_3d_self_glued_face_twice (hwf : WF 4 m) (hcl : ClosedFaces m) {f : Nat} (hf : InUse m f)
+    (h3 : m.β 3 f ≠ 0) (hself : m.β 3 f ∈ cycleB m f) {x : Nat} (hx : x ∈ cycleB m f) :
+    (faceDarts m f).count x = 2 := by
+  unfold faceDarts
+  rw [if_neg h3, List.count_append]
+  have hu3 := inUse_image4 hwf hf (by omega : 3 < 4) h3
+  have hx2 : x ∈ cycleB m (m.β 3 f) := (cycleB_congr hwf (by omega) hcl hf hself x).2 hx
+  rw [List.count_eq_one_of_mem (periodB_spec hwf (by omega) hcl hf).2.2.1 hx,
+    List.count_eq_one_of_mem (periodB_spec hwf (by omega) hcl hu3).2.2.1 hx2]
+
+end Mirror3
+
+/-! ## normals: the exact (un-normalised) part over ℚ
+
+  The 3-D system computes at every corner of a face, from `vec_in = p - p_in`, `vec_out = p_out - p`:
+  `plane_normal = vec_in.cross(vec_out).normalize()` and then
+  `(vec_in.cross(plane_normal).normalize() + vec_out.cross(plane_normal).normalize()).normalize()`.
+  The 2-D system uses `Z` instead of `plane_normal`.  `normalize` of the zero vector is NaN in glam
+  (`v * (1 / 0)` = `0 * inf`); that IEEE fact is the only thing not covered below.  What IS proved,
+  exactly, over ℚ (any ordered field would do):
+  * `C20_D20a_zero_normal_iff`   `vec_in × vec_out = 0` iff the two sides at the corner are linearly
+                                 dependent (`vec_out = t • vec_in`, for `vec_in ≠ 0`)
+  * `C20_D20a_straight_corner`   in particular at every straight corner (a vertex strictly inside a
+                                 straight side) — finding D20a — and at every spike
+  * `C20_3d_normal_nonzero`      conversely, if the plane normal is not zero then the vector handed to
+                                 the last `normalize` is not zero, whatever positive weights the two
+                                 inner normalisations contribute
+  * `C20_2d_normal_nonzero_iff`, `C20_2d_spike_zero`
+                                 2-D: the sum is zero for some positive weights iff the corner is a
+                                 spike (`vec_out = -t • vec_in`, `t > 0`), and then it IS zero for the
+                                 weights `1/|vec_in|, 1/|vec_out|` the code uses (`a = t * b`)
+  * `C20_plane_normal_of_scene`  the plane normal the system computes from the table rows of a face
+                                 entity is the cross product of the differences of the map's own
+                                 coordinates of the vertices of `β1^(i-1) f, β1^i f, β1^(i+1) f`
+-/
+
+section Normals
+
+abbrev V3 := Rat × Rat × Rat
+
+def vsub (a b : V3) : V3 := (a.1 - b.1, a.2.1 - b.2.1, a.2.2 - b.2.2)
+def vadd (a b : V3) : V3 := (a.1 + b.1, a.2.1 + b.2.1, a.2.2 + b.2.2)
+def vsmul (t : Rat) (a : V3) : V3 := (t * a.1, t * a.2.1, t * a.2.2)
+def vdot (a b : V3) : Rat := a.1 * b.1 + a.2.1 * b.2.1 + a.2.2 * b.2.2
+/-- glam's `Vec3::cross` -/
+def cross3 (u v : V3) : V3 :=
+  (u.2.1 * v.2.2 - u.2.2 * v.2.1, u.2.2 * v.1 - u.1 * v.2.2, u.1 * v.2.1 - u.2.1 * v.1)
+
+def vzero : V3 := (0, 0, 0)
+
+theorem v3_ext {a b : V3} (h1 : a.1 = b.1) (h2 : a.2.1 = b.2.1) (h3 : a.2.2 = b.2.2) : a = b := by
+  obtain ⟨a1, a2, a3⟩ := a
+  obtain ⟨b1, b2, b3⟩ := b
+  simp only at h1 h2 h3
+  subst h1 h2 h3
+  rfl
+
+theorem v3_eq_iff {a b : V3} : a = b ↔ a.1 = b.1 ∧ a.2.1 = b.2.1 ∧ a.2.2 = b.2.2 :=
+  ⟨fun h => by subst h; exact ⟨rfl, rfl, rfl⟩, fun ⟨h1, h2, h3⟩ => v3_ext h1 h2 h3⟩
+
+/-- **D20a as a theorem**: the plane normal `vec_in × vec_out` of a corner whose incoming side is
+    not degenerate is the zero vector exactly when the outgoing side is a multiple of the incoming
+    one (the three points are collinear) -/
+theorem C20_D20a_zero_normal_iff (u v : V3) (hu : u ≠ vzero) :
+    cross3 u v = vzero ↔ ∃ t : Rat, v = vsmul t u := by
+  obtain ⟨u1, u2, u3⟩ := u
+  obtain ⟨v1, v2, v3⟩ := v
+  simp only [cross3, vzero, vsmul, v3_eq_iff]
+  constructor
+  · rintro ⟨h1, h2, h3⟩
+    by_cases k1 : u1 = 0
+    · by_cases k2 : u2 = 0
+      · have k3 : u3 ≠ 0 := by
+          intro k3; apply hu; simp [vzero, k1, k2, k3]
+        refine ⟨v3 / u3, ?_, ?_, ?_⟩
+        · subst k1; field_simp; linarith
+        · subst k2; field_simp; linarith
+        · field_simp
+      · refine ⟨v2 / u2, ?_, ?_, ?_⟩
+        · field_simp; linarith
+        · field_simp
+        · field_simp; linarith
+    · refine ⟨v1 / u1, ?_, ?_, ?_⟩
+      · field_simp
+      · field_simp; linarith
+      · field_simp; linarith
+  · rintro ⟨t, h1, h2, h3⟩
+    subst h1 h2 h3
+    refine ⟨by ring, by ring, by ring⟩
+
+/-- **D20a, the straight corner**: if the corner `p` lies on the segment from `p_in` to `p_out`
+    (`p = p_in + s • (p_out - p_in)`, any `s`: strictly inside for `0 < s < 1`, a spike outside), the
+    plane normal the 3-D system normalises is the zero vector -/
+theorem C20_D20a_straight_corner (pin pout : V3) (s : Rat) :
+    let p := vadd pin (vsmul s (vsub pout pin))
+    cross3 (vsub p pin) (vsub pout p) = vzero := by
+  obtain ⟨a1, a2, a3⟩ := pin
+  obtain ⟨b1, b2, b3⟩ := pout
+  simp only [cross3, vzero, vsmul, vsub, vadd, v3_eq_iff]
+  refine ⟨by ring, by ring, by ring⟩
+
+theorem vdot_self_eq_zero {p : V3} (h : vdot p p = 0) : p = vzero := by
+  obtain ⟨p1, p2, p3⟩ := p
+  simp only [vdot] at h
+  have a1 := mul_self_nonneg p1
+  have a2 := mul_self_nonneg p2
+  have a3 := mul_self_nonneg p3
+  have e1 : p1 = 0 := mul_self_eq_zero.1 (by linarith)
+  have e2 : p2 = 0 := mul_self_eq_zero.1 (by linarith)
+  have e3 : p3 = 0 := mul_self_eq_zero.1 (by linarith)
+  simp [vzero, e1, e2, e3]
+
+/-- **the 3-D corner normal is well defined away from D20a**: if the plane normal `pn = u × v` is
+    not zero, the vector `a • (u × pn) + b • (v × pn)` handed to the final `normalize` is not zero,
+    for all positive weights `a, b` (the code's are `1/|u × pn|`, `1/|v × pn|`) -/
+theorem C20_3d_normal_nonzero (u v : V3) (a b : Rat) (ha : 0 < a) (hb : 0 < b)
+    (hpn : cross3 u v ≠ vzero) :
+    vadd (vsmul a (cross3 u (cross3 u v))) (vsmul b (cross3 v (cross3 u v))) ≠ vzero := by
+  intro h
+  apply hpn
+  apply vdot_self_eq_zero
+  -- dot the equation with `v`: `(u × pn)·v = -|pn|²`, `(v × pn)·v = 0`
+  have key : vdot (vadd (vsmul a (cross3 u (cross3 u v))) (vsmul b (cross3 v (cross3 u v)))) v
+      = -(a * vdot (cross3 u v) (cross3 u v)) := by
+    obtain ⟨u1, u2, u3⟩ := u
+    obtain ⟨v1, v2, v3⟩ := v
+    simp only [cross3, vsmul, vadd, vdot]
+    ring
+  rw [h] at key
+  have z : vdot vzero v = 0 := by simp [vdot, vzero]
+  rw [z] at key
+  have : a * vdot (cross3 u v) (cross3 u v) = 0 := by linarith
+  rcases mul_eq_zero.1 this with h1 | h1
+  · exact absurd h1 (ne_of_gt ha)
+  · exact h1
+
+abbrev V2 := Rat × Rat
+/-- `(x, y, 0) × Z = (y, -x, 0)` -/
+def perp2 (u : V2) : V2 := (u.2, -u.1)
+
+/-- **2-D corner normal**: for non-degenerate sides `u = vec_in`, `v = vec_out`, the sum
+    `a • (u × Z) + b • (v × Z)` vanishes for some positive weights iff the corner is a spike: the
+    sides are parallel (`u.x v.y = u.y v.x`) and point in opposite directions (`u·v < 0`).  A straight
+    corner (`u·v > 0`) is fine in 2-D. -/
+theorem C20_2d_normal_nonzero_iff (u v : V2) (hu : u ≠ (0, 0)) (hv : v ≠ (0, 0)) :
+    (∃ a b : Rat, 0 < a ∧ 0 < b ∧
+      (a * (perp2 u).1 + b * (perp2 v).1 = 0 ∧ a * (perp2 u).2 + b * (perp2 v).2 = 0)) ↔
+    (u.1 * v.2 - u.2 * v.1 = 0 ∧ u.1 * v.1 + u.2 * v.2 < 0) := by
+  obtain ⟨u1, u2⟩ := u
+  obtain ⟨v1, v2⟩ := v
+  simp only [perp2]
+  have hu' : 0 < u1 * u1 + u2 * u2 := by
+    rcases lt_or_eq_of_le (add_nonneg (mul_self_nonneg u1) (mul_self_nonneg u2)) with h | h
+    · exact h
+    · exfalso; apply hu
+      have e1 : u1 = 0 := mul_self_eq_zero.1 (by linarith [mul_self_nonneg u1, mul_self_nonneg u2])
+      have e2 : u2 = 0 := mul_self_eq_zero.1 (by linarith [mul_self_nonneg u1, mul_self_nonneg u2])
+      rw [e1, e2]
+  have hv' : 0 < v1 * v1 + v2 * v2 := by
+    rcases lt_or_eq_of_le (add_nonneg (mul_self_nonneg v1) (mul_self_nonneg v2)) with h | h
+    · exact h
+    · exfalso; apply hv
+      have e1 : v1 = 0 := mul_self_eq_zero.1 (by linarith [mul_self_nonneg v1, mul_self_nonneg v2])
+      have e2 : v2 = 0 := mul_self_eq_zero.1 (by linarith [mul_self_nonneg v1, mul_self_nonneg v2])
+      rw [e1, e2]
+  constructor
+  · rintro ⟨a, b, ha, hb, h1, h2⟩
+    -- `a u = -b v`
+    have e1 : a * u1 = -(b * v1) := by linarith
+    have e2 : a * u2 = -(b * v2) := by linarith
+    constructor
+    · have : a * (u1 * v2 - u2 * v1) = 0 := by
+        calc a * (u1 * v2 - u2 * v1) = (a * u1) * v2 - (a * u2) * v1 := by ring
+          _ = 0 := by rw [e1, e2]; ring
+      rcases mul_eq_zero.1 this with h | h
+      · exact absurd h (ne_of_gt ha)
+      · exact h
+    · have : a * (u1 * v1 + u2 * v2) = -(b * (v1 * v1 + v2 * v2)) := by
+        calc a * (u1 * v1 + u2 * v2) = (a * u1) * v1 + (a * u2) * v2 := by ring
+          _ = -(b * (v1 * v1 + v2 * v2)) := by rw [e1, e2]; ring
+      have hneg : a * (u1 * v1 + u2 * v2) < 0 := by
+        rw [this]; exact neg_neg_of_pos (mul_pos hb hv')
+      by_contra hge
+      have := mul_nonneg (le_of_lt ha) (not_lt.1 hge)
+      linarith
+  · rintro ⟨hc, hd⟩
+    -- weights `a = -(u·v)`, `b = u·u`
+    refine ⟨-(u1 * v1 + u2 * v2), u1 * u1 + u2 * u2, by linarith, hu', ?_, ?_⟩
+    · have : -(u1 * v1 + u2 * v2) * u2 + (u1 * u1 + u2 * u2) * v2 = u1 * (u1 * v2 - u2 * v1) := by ring
+      rw [this, hc]; ring
+    · have : -(u1 * v1 + u2 * v2) * -u1 + (u1 * u1 + u2 * u2) * -v1 = u2 * (u1 * v2 - u2 * v1) := by
+        ring
+      rw [this, hc]; ring
+
+/-- **2-D spike**: if `vec_out = -t • vec_in` with `t > 0`, the two unit normals cancel: the sum is
+    zero for all weights with `a = t * b` — which `a = 1/|vec_in|`, `b = 1/|vec_out| = 1/(t |vec_in|)`
+    satisfy -/
+theorem C20_2d_spike_zero (u : V2) (t a b : Rat) (hab : a = t * b) :
+    let v : V2 := (-(t * u.1), -(t * u.2))
+    a * (perp2 u).1 + b * (perp2 v).1 = 0 ∧ a * (perp2 u).2 + b * (perp2 v).2 = 0 := by
+  obtain ⟨u1, u2⟩ := u
+  simp only [perp2]
+  subst hab
+  constructor <;> ring
+
+/-- the point stored in a table entry -/
+def ptOf : Val → V3
+  | .pt x y z => (x, y, z)
+  | _ => vzero
+
+/-- the plane normal, before normalisation, that the 3-D system computes at corner `i` of a face
+    entity with corner rows `rows`: `(ver_in, ver, ver_out) = (rows[i-1], rows[i], rows[i+1])`
+    cyclically — the first block of the Rust code is `i = 0`, the `windows(3)` loop `0 < i < n_v-1`,
+    the last block `i = n_v - 1` — and `vec_in.cross(vec_out)` on the table entries -/
+def planeNormalAt (table : List Val) (rows : List Nat) (i : Nat) : V3 :=
+  let n := rows.length
+  let P := fun j => ptOf (table.getD (rows.getD j 0) default)
+  cross3 (vsub (P i) (P ((i + n - 1) % n))) (vsub (P ((i + 1) % n)) (P i))
+
+variable {m : Map Val} {sc : Scene}
+
+/-- **C20 (3-D), the plane normal in terms of the map**: at corner `i` of face `f` the system's
+    plane normal is the cross product of the differences of the map's own coordinates of the vertices
+    of the darts `β1^(i-1) f`, `β1^i f`, `β1^(i+1) f` (indices mod the number of sides) -/
+theorem C20_plane_normal_of_scene (hwf : WF 4 m) (hcl : ClosedFaces m) (h : extract3 m = some sc)
+    {f : Nat} {rows : List Nat} (hm : (f, rows) ∈ sc.faces) {i : Nat} (hi : i < rows.length) :
+    ∃ vp v vn xp x xn,
+      evalP (vertexId3 m.n ((m.β 1)^[(i + rows.length - 1) % rows.length] f)) m = some vp ∧
+      evalP (vertexId3 m.n ((m.β 1)^[i] f)) m = some v ∧
+      evalP (vertexId3 m.n ((m.β 1)^[(i + 1) % rows.length] f)) m = some vn ∧
+      m.att 0 vp = some xp ∧ m.att 0 v = some x ∧ m.att 0 vn = some xn ∧
+      planeNormalAt sc.table rows i =
+        cross3 (vsub (ptOf x) (ptOf xp)) (vsub (ptOf xn) (ptOf x)) := by
+  obtain ⟨_, hall⟩ := C20_3d_face_corners hwf hcl h
+  obtain ⟨_, _, _, hrow⟩ := hall f rows hm
+  have at_ : ∀ j, j < rows.length → ∃ v x, evalP (vertexId3 m.n ((m.β 1)^[j] f)) m = some v ∧
+      m.att 0 v = some x ∧ sc.table.getD (rows.getD j 0) default = x := by
+    intro j hj
+    obtain ⟨v, x, j1, _, j3, j4⟩ := hrow j rows[j] (List.getElem?_eq_getElem hj)
+    refine ⟨v, x, j1, j4, ?_⟩
+    rw [List.getD_eq_getElem?_getD, List.getD_eq_getElem?_getD, List.getElem?_eq_getElem hj]
+    simp only [Option.getD_some]
+    rw [j3]; rfl
+  have hn : 0 < rows.length := by omega
+  obtain ⟨vp, xp, a1, a2, a3⟩ := at_ ((i + rows.length - 1) % rows.length) (Nat.mod_lt _ hn)
+  obtain ⟨v, x, b1, b2, b3⟩ := at_ i hi
+  obtain ⟨vn, xn, c1, c2, c3⟩ := at_ ((i + 1) % rows.length) (Nat.mod_lt _ hn)
+  refine ⟨vp, v, vn, xp, x, xn, a1, b1, c1, a2, b2, c2, ?_⟩
+  unfold planeNormalAt
+  simp only [a3, b3, c3]
+
+end Normals
+
+/-! ## the keys of `FaceNormals` and `VolumeNormals` -/
+
+section Keys
+variable {R : Reader} {vn : Option (List (Nat × Nat))} {sc : Scene} {m : Map Val}
+
+/-- the keys inserted into `FaceNormals` are, face entity after face entity, `(face id, row)` for
+    every corner row of the entity (dimension-independent) -/
+theorem fn_keys (h : extractWith R vn = some sc) :
+    sc.fnKeys = sc.faces.flatMap (fun p => p.2.map (fun r => (p.1, r))) := by
+  obtain ⟨table, verts, edges, fbs, _, _, _, h4, _, _, _, e4, _, e6, _⟩ := extractWith_inv h
+  rw [e6, e4, List.flatMap_def, List.map_map]
+  congr 1
+  apply List.map_congr_left
+  intro fb hfb
+  obtain ⟨f, _, hf⟩ := mapO_mem' h4 hfb
+  obtain ⟨w, rows, d1, w2, d2, _, _, _, _, _, _, rfl⟩ := faceBundle_inv hf
+  rfl
+
+/-- **C20, `FaceNormals` keys (2-D)**: one key `(f, row)` per corner of every face entity -/
+theorem C20_face_normal_keys (h : extract2 m = some sc) :
+    sc.fnKeys = sc.faces.flatMap (fun p => p.2.map (fun r => (p.1, r))) :=
+  fn_keys (R := reader2 m) h
+
+theorem extract3_inv' (h : extract3 m = some sc) :
+    ∃ sc0 k, extractWith (reader3 m) (some []) = some sc0 ∧ volKeys3 m (reader3 m) = some k ∧
+      sc = { sc0 with vnKeys := some k } := by
+  unfold extract3 at h
+  simp only at h
+  split at h
+  · exact absurd h (by simp)
+  · rename_i sc0 h0
+    split at h
+    · exact absurd h (by simp)
+    · rename_i k hk
+      simp only [Option.some.injEq] at h
+      exact ⟨sc0, k, h0, hk, h.symm⟩
+
+/-- **C20, `FaceNormals` keys (3-D)** -/
+theorem C20_3d_face_normal_keys (h : extract3 m = some sc) :
+    sc.fnKeys = sc.faces.flatMap (fun p => p.2.map (fun r => (p.1, r))) := by
+  obtain ⟨sc0, k, h0, _, rfl⟩ := extract3_inv' h
+  exact fn_keys (R := reader3 m) (sc := sc0) h0
+
+/-- images of the 3-D Volume policy -/
+def gVol (m : Map Val) (x : Nat) : List Nat := [m.β 1 x, m.β 0 x, m.β 2 x]
+
+theorem run_gen3_volume (hwf : WF 4 m) {x : Nat} (hx : x < m.n) :
+    run (gen3 (X := Val) .volume x) m = (.ok (gVol m x), m) := by
+  simp [gen3, gVol, run_rB, okb4 hwf (by omega : 1 < 4) hx, okb4 hwf (by omega : 0 < 4) hx,
+    okb4 hwf (by omega : 2 < 4) hx]
+
+theorem volume_orbit_eq (hwf : WF 4 m) {d : Nat} (hd0 : d ≠ 0) (hdn : d < m.n) :
+    ∃ ds, evalP (orbit3 m.n .volume d) m = some ds ∧
+      ∀ x, x ∈ ds ↔ x ≠ 0 ∧ Reach (gVol m) d x := by
+  have h0 : ∀ y, y ∈ gVol m 0 → y = 0 := by
+    intro y hy
+    simp only [gVol, hwf.null 1 (by omega), hwf.null 0 (by omega), hwf.null 2 (by omega),
+      List.mem_cons, List.not_mem_nil, or_false, or_self] at hy
+    exact hy
+  have hr : ∀ a, a < m.n → ∀ y, y ∈ gVol m a → y < m.n := by
+    intro a ha y hy
+    simp only [gVol, List.mem_cons, List.not_mem_nil, or_false] at hy
+    rcases hy with rfl | rfl | rfl
+    · exact hwf.range 1 (by omega) a ha
+    · exact hwf.range 0 (by omega) a ha
+    · exact hwf.range 2 (by omega) a ha
+  refine ⟨_, evalP_of_run (run_orbitWith (gen := gen3 .volume) (g := gVol m)
+    (fun x hx => run_gen3_volume hwf hx) hr hd0 hdn), ?_⟩
+  exact (bfsPure_spec h0 hr hd0 hdn).2.2.2.1
+
+/-- **C20, `VolumeNormals` keys (3-D)**: the keys are exactly the pairs `(vol, index_map (vertex_id d))`
+    for `vol` an id of `iter_volumes` and `d` a dart of the volume of `vol` (the non-null darts
+    reachable from `vol` through `β1, β0, β2`) -/
+theorem C20_3d_volume_normal_keys (hwf : WF 4 m) (h : extract3 m = some sc) :
+    ∃ ks, sc.vnKeys = some ks ∧ ∀ vol r, (vol, r) ∈ ks ↔
+      vol ∈ iterVolumes3 m ∧ ∃ d, d ≠ 0 ∧ Reach (gVol m) vol d ∧ (reader3 m).rowOfDart d = some r := by
+  obtain ⟨sc0, ks, _, hk, rfl⟩ := extract3_inv' h
+  refine ⟨ks, rfl, ?_⟩
+  unfold volKeys3 at hk
+  simp only [Option.map_eq_some_iff] at hk
+  obtain ⟨per, hper, rfl⟩ := hk
+  intro vol r
+  rw [List.mem_flatten]
+  -- one volume
+  have one : ∀ v keys, v ∈ iterVolumes3 m →
+      (match evalP (orbit3 m.n .volume v) m with
+        | none => none
+        | some ds =>
+          match mapO (fun d => evalP (faceId3 m.n d) m) ds with
+          | none => none
+          | some fids =>
+            match mapO (fun d => ((reader3 m).walk d).bind
+                (fun w => mapO (reader3 m).rowOfDart (w ++ [d]))) (uniqueByKey (ds.zip fids) []),
+              mapO (reader3 m).rowOfDart ds with
+            | some _, some rows => some (rows.map (fun r => (v, r)))
+            | _, _ => none) = some keys →
+      ∀ vol r, (vol, r) ∈ keys ↔ vol = v ∧ ∃ d, d ≠ 0 ∧ Reach (gVol m) v d ∧
+        (reader3 m).rowOfDart d = some r := by
+    intro v keys hv hF vol r
+    obtain ⟨h1, h2, h3, _⟩ := (C03.mem_iterCells m _ v).1 hv
+    obtain ⟨ds, hds, hmem⟩ := volume_orbit_eq hwf h2 h1
+    rw [hds] at hF
+    simp only at hF
+    split at hF
+    · exact absurd hF (by simp)
+    · split at hF
+      · rename_i rows _ hrows
+        simp only [Option.some.injEq] at hF
+        subst hF
+        simp only [List.mem_map, Prod.mk.injEq]
+        constructor
+        · rintro ⟨r', hr', rfl, rfl⟩
+          obtain ⟨d, hd, hrd⟩ := mapO_mem' hrows hr'
+          exact ⟨rfl, d, ((hmem d).1 hd).1, ((hmem d).1 hd).2, hrd⟩
+        · rintro ⟨rfl, d, hd0, hr, hrd⟩
+          obtain ⟨b, hb, hfb⟩ := mapO_mem hrows ((hmem d).2 ⟨hd0, hr⟩)
+          rw [hrd] at hfb
+          exact ⟨b, hb, rfl, (Option.some.inj hfb).symm⟩
+      · exact absurd hF (by simp)
+  constructor
+  · rintro ⟨keys, hkeys, hin⟩
+    obtain ⟨v, hv, hF⟩ := mapO_mem' hper hkeys
+    obtain ⟨rfl, rest⟩ := (one v keys hv hF vol r).1 hin
+    exact ⟨hv, rest⟩
+  · rintro ⟨hv, rest⟩
+    obtain ⟨keys, hkeys, hF⟩ := mapO_mem hper hv
+    exact ⟨keys, hkeys, (one vol keys hv hF vol r).2 ⟨rfl, rest⟩⟩
+
+end Keys
+
 end HC.C20
